@@ -47,6 +47,28 @@ func c01RunOps(ops []Val) []Val {
 	return outs
 }
 
+// c01RunOpsExt: like c01RunOps, plus (n bits) = MD4.VerifAddCount (hook, build tag verif)
+func c01RunOpsExt(ops []Val) []Val {
+	h := md4.New()
+	var outs []Val
+	for _, op := range ops {
+		switch op.K {
+		case 'x':
+			h.Write(exact(op.B))
+		case 'l':
+			h.VerifAddCount(op.L[0].Uint())
+		case 'n':
+			if op.Int() == 0 {
+				d := h.Sum()
+				outs = append(outs, B(d[:]))
+			} else {
+				outs = append(outs, S(h.HexSum()))
+			}
+		}
+	}
+	return outs
+}
+
 func c01Short(b []byte) string {
 	if len(b) > 48 {
 		return fmt.Sprintf("%x… (%d bytes)", b[:48], len(b))
@@ -57,6 +79,7 @@ func c01Short(b []byte) string {
 func init() {
 	// ---------------------------------------------------------------- implementation runners
 	Impl("md4.ops", func(a []Val) Val { return L(c01RunOps(a[0].L)...) })
+	Impl("md4.ops_ext", func(a []Val) Val { return L(c01RunOpsExt(a[0].L)...) })
 	Impl("md4.sum", func(a []Val) Val { d := md4.Sum(exact(a[0].B)); return B(d[:]) })
 	Impl("nt.hash", func(a []Val) Val { d := nt.NTHash(a[0].Str()); return B(d[:]) })
 	Impl("nt.hex", func(a []Val) Val { return S(nt.NTHashHex(a[0].Str())) })
